@@ -12,3 +12,15 @@ pub mod k;
 pub mod s9;
 #[cfg(kani)]
 pub mod d9;
+#[cfg(kani)]
+pub mod w;
+#[cfg(kani)]
+pub mod s10;
+#[cfg(kani)]
+pub mod d10;
+#[cfg(kani)]
+pub mod p;
+#[cfg(kani)]
+pub mod ser;
+#[cfg(kani)]
+pub mod cv;
